@@ -210,17 +210,56 @@ func frontWithFile(c *Ctx, r *Report, fe string, fn, newConfig *ssa.Function) []
 	r.Check(g2a, "R18a", name, "NewConfig(data", c.Pos(n.Pos()), "NewConfig receives the bytes read", "NewConfig does not receive the bytes returned by ReadFile")
 	order := "none"
 	if len(n.Call.Args) == 2 {
-		if ap, ok := n.Call.Args[1].(*ssa.Call); ok && BuiltinName(ap) == "append" && len(ap.Call.Args) == 2 {
-			first, second := Sources(ap.Call.Args[0]), Sources(ap.Call.Args[1])
-			firstLit := len(first) == 1 && allocHoldsCall(first[0], md[0])
-			secondOpts := onlyParam(second, fn, 1)
-			firstOpts := onlyParam(first, fn, 1)
-			secondLit := len(second) == 1 && allocHoldsCall(second[0], md[0])
-			switch {
-			case firstLit && secondOpts:
+		// the slice as a sequence of known pieces: append(a, b...) = a ++ b, a literal holding the MetaData call, the
+		// caller's options, an empty make / nil
+		var seq func(v ssa.Value, d int) ([]string, bool)
+		seq = func(v ssa.Value, d int) ([]string, bool) {
+			if d > 6 {
+				return nil, false
+			}
+			srcs := []ssa.Value{v}
+			if call, isCall := v.(*ssa.Call); !isCall || BuiltinName(call) != "append" {
+				srcs = Sources(v)
+			}
+			if len(srcs) != 1 {
+				return nil, false
+			}
+			switch x := srcs[0].(type) {
+			case *ssa.Call:
+				if BuiltinName(x) == "append" && len(x.Call.Args) == 2 {
+					a, ok1 := seq(x.Call.Args[0], d+1)
+					b, ok2 := seq(x.Call.Args[1], d+1)
+					return append(append([]string{}, a...), b...), ok1 && ok2
+				}
+			case *ssa.MakeSlice:
+				if k, ok := ConstInt(x.Len); ok && k == 0 {
+					return nil, true
+				}
+			case *ssa.Const:
+				if x.IsNil() {
+					return nil, true
+				}
+			case *ssa.Parameter:
+				if len(fn.Params) > 1 && x == fn.Params[1] {
+					return []string{"user"}, true
+				}
+			case *ssa.Alloc:
+				if allocHoldsCall(x, md[0]) {
+					if at, ok := derefType(x.Type()).Underlying().(*types.Array); ok && at.Len() == 1 {
+						return []string{"metadata"}, true
+					}
+				}
+			}
+			return nil, false
+		}
+		if sq, ok := seq(n.Call.Args[1], 0); ok {
+			switch strings.Join(sq, ",") {
+			case "metadata,user":
 				order = "metadata-then-user"
-			case firstOpts && secondLit:
+			case "user,metadata":
 				order = "user-then-metadata"
+			default:
+				order = "[" + strings.Join(sq, ",") + "]"
 			}
 		}
 	}
